@@ -307,19 +307,21 @@ Proof.
   intros H Hin Hx He.
   pose proof (build_message_ok_fields _ _ _ _ _ _ H) as F. rewrite Forall_forall in F.
   destruct (F f Hin) as (x & Hv).
-  apply build_message_ok_inv in H. destruct H as [(E & _)|(_ & l & Hl & Em)]; [rewrite E in Hin; destruct Hin|].
+  apply build_message_ok_inv in H. destruct H as (l & Hl & Hc).
   pose proof (build_field_list_incl _ _ _ _ _ _ _ _ _ Hl Hin Hv) as I.
   rewrite He in Hv.
   assert (Hne : embedded_view cfg (view_of_field f) = false).
   { unfold embedded_view. cbn [view_of_field v_embed]. rewrite He. apply andb_false_r. }
   destruct (build_view_not_embedded _ _ _ _ _ _ _ _ _ _ Hv Hx Hne) as (i & om & -> & S).
   exists i, om. split; [|exact S].
-  rewrite Em. assert (In (Field i om) l) by (apply I; now left).
-  destruct (o_sort cfg); [now apply FrontEndProofs.sort_by_perm_in|assumption].
+  assert (Hil : In (Field i om) l) by (apply I; now left).
+  destruct Hc as [(E & _)|(_ & Em & _)]; [subst l; destruct Hil|].
+  rewrite Em. destruct (o_sort cfg); [now apply FrontEndProofs.sort_by_perm_in|assumption].
 Qed.
 
 (* ------------------------------------------------------------------------------------- *)
-(* C. C10: a message without fields gets the placeholder *)
+(* C. C10: a message gets the placeholder exactly when no field is left: no field declared, or every
+   declared field excluded *)
 
 Lemma placeholder_field_spec path :
   exists i, placeholder_field path = Field i None /\
@@ -330,30 +332,171 @@ Lemma placeholder_field_spec path :
     fi_comment i = "Automatically generated field preventing empty message errors".
 Proof. eexists. split; [reflexivity|]. cbn. repeat split. Qed.
 
+(* the general form: nothing comes out of BuildFields *)
+Lemma build_message_no_field_left cfg table fuel d path :
+  build_field_list cfg table (build_message cfg table fuel) d path (md_fields d) = BOk [] ->
+  exists m, build_message cfg table (S fuel) d path = BOk m /\
+    m_fields m = [placeholder_field path] /\ m_empty m = true /\
+    m_name m = md_name d /\ m_oneofs m = map go_name (md_oneofs d).
+Proof. intros E. rewrite build_message_S, E. cbn [bbind]. eexists. split; [reflexivity|]. cbn. auto. Qed.
+
 Theorem build_message_placeholder cfg table fuel d path m :
   md_fields d = [] -> build_message cfg table (S fuel) d path = BOk m ->
   m_fields m = [placeholder_field path] /\ m_empty m = true /\
   m_name m = md_name d /\ m_oneofs m = map go_name (md_oneofs d).
 Proof.
-  intros E H. rewrite build_message_S, E in H. cbn [bbind] in H. injection H as <-. cbn. auto.
+  intros E H. rewrite build_message_S, E in H. cbn [build_field_list bbind] in H. injection H as <-. cbn. auto.
 Qed.
 Print Assumptions build_message_placeholder.
 
 (* a descriptor without fields always builds (given fuel), whatever the configuration *)
 Lemma build_message_placeholder_ok cfg table fuel d path :
   md_fields d = [] -> exists m, build_message cfg table (S fuel) d path = BOk m.
-Proof. intros E. rewrite build_message_S, E. cbn [bbind]. eauto. Qed.
+Proof. intros E. rewrite build_message_S, E. cbn [build_field_list bbind]. eauto. Qed.
 
-(* and only then: the placeholder marks exactly the messages without declared fields *)
-Lemma build_message_empty_iff cfg table fuel d path m :
-  build_message cfg table (S fuel) d path = BOk m -> (m_empty m = true <-> md_fields d = []).
+(* every message that is built has a field *)
+Lemma build_message_fields_nonempty cfg table fuel d path m :
+  build_message cfg table fuel d path = BOk m -> m_fields m <> [].
 Proof.
-  rewrite build_message_S. intros H.
-  destruct (md_fields d) as [|f fs]; cbn [bbind] in H.
-  - injection H as <-. cbn. tauto.
-  - destruct (build_field_list _ _ _ _ _ _) as [l|e|]; cbn [bbind] in H; try discriminate.
-    injection H as <-. cbn. split; discriminate.
+  destruct fuel as [|fuel]; [discriminate|]. intros H.
+  apply build_message_ok_inv in H. destruct H as (l & _ & [(_ & Em & _)|(NE & Em & _)]); rewrite Em.
+  - discriminate.
+  - destruct (o_sort cfg); [|exact NE]. intros E. apply NE.
+    pose proof (FrontEndProofs.sort_by_perm (fun f => fi_name (f_info f)) l) as P.
+    rewrite E in P. now apply Permutation.Permutation_nil in P.
 Qed.
+
+(* so a declared field contributes nothing exactly when it is excluded (an embedded message always
+   contributes: its fields, or its placeholder) *)
+Lemma build_view_nil_iff cfg table fuel d v b tn fp o x :
+  build_view cfg table (build_message cfg table fuel) d v b tn fp o = BOk x ->
+  (x = [] <-> o_excluded cfg tn fp = true).
+Proof.
+  intros H. destruct (o_excluded cfg tn fp) eqn:Hx.
+  - rewrite (build_view_excluded _ _ _ _ _ _ _ _ _ Hx) in H. injection H as <-. tauto.
+  - split; [|discriminate]. intros ->. exfalso.
+    destruct (embedded_view cfg v) eqn:He.
+    + destruct (build_view_embedded _ _ _ _ _ _ _ _ _ _ H Hx He) as (mn & d' & m' & _ & _ & Hm & E).
+      apply build_message_fields_nonempty in Hm. destruct (m_fields m'); [now apply Hm|discriminate].
+    + destruct (build_view_not_embedded _ _ _ _ _ _ _ _ _ _ H Hx He) as (i & om & E & _). discriminate.
+Qed.
+
+Lemma build_field_list_nil_iff cfg table fuel d path l res :
+  build_field_list cfg table (build_message cfg table fuel) d path l = BOk res ->
+  (res = [] <->
+   forall f, In f l ->
+     o_excluded cfg (md_name d ++ "." ++ fd_name f) (if fd_embed f then path else path ++ "." ++ fd_name f) = true).
+Proof.
+  revert res. induction l as [|g r IH]; intros res H.
+  - injection H as <-. split; [intros _ f []|reflexivity].
+  - rewrite build_field_list_cons in H.
+    destruct (build_view cfg table (build_message cfg table fuel) d (view_of_field g) false _ _ (Some g))
+      as [x|e|] eqn:Eg; cbn [bbind] in H; try discriminate.
+    destruct (build_field_list cfg table (build_message cfg table fuel) d path r) as [y|e|] eqn:Er;
+      cbn [bbind] in H; try discriminate.
+    injection H as <-. pose proof (build_view_nil_iff _ _ _ _ _ _ _ _ _ _ Eg) as Vg.
+    specialize (IH y eq_refl). split.
+    + intros E. apply app_eq_nil in E. destruct E as (Ex & Ey). intros f [<-|Hf].
+      * now apply Vg.
+      * now apply (proj1 IH Ey).
+    + intros A. rewrite (proj2 Vg (A g (or_introl eq_refl))), (proj2 IH (fun f Hf => A f (or_intror Hf))).
+      reflexivity.
+Qed.
+
+(* the fields of a message are all excluded: nothing is built for them, in particular no error can
+   come out of them *)
+Lemma build_field_list_all_excluded cfg table rec d path l :
+  (forall f, In f l ->
+     o_excluded cfg (md_name d ++ "." ++ fd_name f) (if fd_embed f then path else path ++ "." ++ fd_name f) = true) ->
+  build_field_list cfg table rec d path l = BOk [].
+Proof.
+  induction l as [|g r IH]; intros A; [reflexivity|].
+  rewrite build_field_list_cons, build_view_excluded by (apply A; now left).
+  cbn [bbind]. rewrite IH by (intros f Hf; apply A; now right). reflexivity.
+Qed.
+
+(* and only then: the message counts as empty (and then has exactly the placeholder) iff no field is
+   left, that is, iff every declared field is excluded -- in particular when none is declared *)
+Lemma build_message_empty_iff cfg table fuel d path m :
+  build_message cfg table (S fuel) d path = BOk m ->
+  (m_empty m = true <->
+   forall f, In f (md_fields d) ->
+     o_excluded cfg (md_name d ++ "." ++ fd_name f) (if fd_embed f then path else path ++ "." ++ fd_name f) = true) /\
+  (m_empty m = true <-> build_field_list cfg table (build_message cfg table fuel) d path (md_fields d) = BOk []) /\
+  (m_empty m = true -> m_fields m = [placeholder_field path]) /\
+  (md_fields d = [] -> m_empty m = true).
+Proof.
+  intros H. apply build_message_ok_inv in H. destruct H as (l & Hl & Hc).
+  pose proof (build_field_list_nil_iff _ _ _ _ _ _ _ Hl) as N.
+  assert (E : m_empty m = true <-> l = []).
+  { destruct Hc as [(-> & _ & ->)|(NE & _ & ->)]; [tauto|]. split; [discriminate|contradiction]. }
+  split; [now rewrite E|]. split; [|split].
+  - rewrite E, Hl. split; [now intros ->|now intros [= ->]].
+  - intros T. apply E in T. destruct Hc as [(_ & Em & _)|(NE & _)]; [exact Em|contradiction].
+  - intros D. apply E, N. rewrite D. intros f [].
+Qed.
+
+(* C10/C11: a message whose declared fields are all excluded is built (whatever the types of its
+   fields), gets exactly the placeholder field and counts as empty, like a message without fields *)
+Theorem build_message_all_excluded_placeholder cfg table fuel d path :
+  (forall f, In f (md_fields d) ->
+     o_excluded cfg (md_name d ++ "." ++ fd_name f) (if fd_embed f then path else path ++ "." ++ fd_name f) = true) ->
+  exists m, build_message cfg table (S fuel) d path = BOk m /\
+    m_fields m = [placeholder_field path] /\ m_empty m = true /\
+    m_name m = md_name d /\ m_oneofs m = map go_name (md_oneofs d).
+Proof. intros A. apply build_message_no_field_left. now apply build_field_list_all_excluded. Qed.
+Print Assumptions build_message_all_excluded_placeholder.
+Print Assumptions build_message_empty_iff.
+
+(* by computation: (a) no field declared, (b) both fields excluded (message-qualified keys), (c) one of
+   two fields excluded, (d) an embedded message whose fields are all excluded contributes its placeholder *)
+Module PlaceholderExamples.
+  Definition fd (n : string) (num : Z) (t : ptype) (embed : bool) : fdesc :=
+    {| fd_name := n; fd_num := num; fd_type := t; fd_repeated := false; fd_nullable := Some false;
+       fd_embed := embed; fd_cast := ""; fd_custom := ""; fd_stdtime := false; fd_stddur := false;
+       fd_jsontag := None; fd_oneof := None; fd_comment := "" |}.
+  Definition d_none : mdesc := {| md_name := "None"; md_comment := ""; md_oneofs := []; md_fields := [] |}.
+  Definition d_ab : mdesc :=
+    {| md_name := "AB"; md_comment := ""; md_oneofs := [];
+       md_fields := [fd "A" (Zpos xH) (PScalar SString) false; fd "B" (Zpos (xO xH)) (PScalar SInt64) false] |}.
+  Definition d_outer : mdesc :=
+    {| md_name := "Outer"; md_comment := ""; md_oneofs := [];
+       md_fields := [fd "AB" (Zpos xH) (PMsg "AB") true; fd "n" (Zpos (xO xH)) (PScalar SBool) false] |}.
+  Definition table := [d_none; d_ab; d_outer].
+  Definition cfg0 (ex : list string) : config :=
+    {| c_types := ["None"; "AB"; "Outer"]; c_duration_custom_type := ""; c_exclude := ex; c_computed := [];
+       c_required := []; c_sensitive := []; c_target_pkg := ""; c_default_pkg := ""; c_sort := true;
+       c_use_state := false; c_suffixes := []; c_name_overrides := []; c_validators := [];
+       c_planmods := []; c_time_type := false; c_duration_type := false; c_injected := [];
+       c_import_overrides := []; c_custom_types := [] |}.
+  Definition shape (r : bres message) : bres (list field * bool) :=
+    match r with BOk m => BOk (m_fields m, m_empty m) | BErr e => BErr e | BFuel => BFuel end.
+  Definition names_of (r : bres message) : bres (list string * bool) :=
+    match r with BOk m => BOk (map (fun f => fi_path (f_info f)) (m_fields m), m_empty m) | BErr e => BErr e | BFuel => BFuel end.
+
+  Example a_no_field :
+    shape (build_message (obs_of (cfg0 [])) table 4 d_none "None") = BOk ([placeholder_field "None"], true).
+  Proof. vm_compute. reflexivity. Qed.
+  Example b_all_excluded :
+    shape (build_message (obs_of (cfg0 ["AB.A"; "AB.B"])) table 4 d_ab "AB") = BOk ([placeholder_field "AB"], true).
+  Proof. vm_compute. reflexivity. Qed.
+  Example b_all_excluded_by_theorem :
+    exists m, build_message (obs_of (cfg0 ["AB.A"; "AB.B"])) table 4 d_ab "AB" = BOk m /\
+      m_fields m = [placeholder_field "AB"] /\ m_empty m = true.
+  Proof.
+    destruct (build_message_all_excluded_placeholder (obs_of (cfg0 ["AB.A"; "AB.B"])) table 3 d_ab "AB")
+      as (m & H & F & E & _); [|eauto].
+    intros f [<-|[<-|[]]]; reflexivity.
+  Qed.
+  Example c_one_excluded :
+    names_of (build_message (obs_of (cfg0 ["AB.A"])) table 4 d_ab "AB") = BOk (["AB.B"], false) /\
+    names_of (build_message (obs_of (cfg0 [])) table 4 d_ab "AB") = BOk (["AB.A"; "AB.B"], false).
+  Proof. split; vm_compute; reflexivity. Qed.
+  Example d_embedded_all_excluded :
+    names_of (build_message (obs_of (cfg0 ["AB.A"; "AB.B"])) table 4 d_outer "Outer")
+    = BOk (["Outer.n"; "Outer.active"], false).   (* sorted by Go name: "N" before "active" *)
+  Proof. vm_compute. reflexivity. Qed.
+End PlaceholderExamples.
 
 (* no field built from a declared field is a placeholder *)
 Lemma build_view_single_not_placeholder cfg table rec d v b tn fp o i om :
